@@ -366,12 +366,18 @@ def make_transport_classes():
             self.core.connect(transport_timeout_s)
 
         async def bulk_read(self, numbytes, transport_timeout_s):
+            if getattr(self.core, 'yield_io', False):
+                import asyncio
+                await asyncio.sleep(0)            # a real stream reader suspends here (before anything is consumed)
             if self.gate:
                 await self.gate.before_read_async(self.core)
             _flush(self.core)
             return shape(self.core, self.core.read(numbytes, transport_timeout_s))
 
         async def bulk_write(self, data, transport_timeout_s):
+            if getattr(self.core, 'yield_io', False):
+                import asyncio
+                await asyncio.sleep(0)
             if self.gate:
                 await self.gate.before_write_async(self.core)
             if self.core.defer_ref:
